@@ -79,6 +79,8 @@ def make_template(path, dims, variables=(), crs=None):
             kw = {}
             if var.get("fill") is not None:
                 kw["fill_value"] = var["fill"]
+            if var.get("endian"):
+                kw["endian"] = var["endian"]  # the byte order on disk is no business of whoever reads the values
             v = ds.createVariable(var["name"], var["dtype"], tuple(names), **kw)
             shape = [d["size"] for d in dims]
             data = numpy.array(var["data"], dtype=NP[var["dtype"]]).reshape(shape)
@@ -266,6 +268,8 @@ def check_read(case, rec):
         if got_dtype.kind != want_dtype.kind or (want_dtype.kind == "f" and got_dtype != want_dtype):
             fails.append(Failure(sig + "|element_type", "result dtype %s, documented %s" % (got_dtype, want_dtype)))
         want = data.astype(want_dtype)
+        if want_dtype.kind in "iu" and var["dtype"] == "f8":
+            want = numpy.rint(data).astype(want_dtype)  # double-precision values are converted to the nearest integer
         if dt == "Fuzzy":
             want = numpy.clip(want, -1.0, 1.0)
         wmask = fmask.copy()
@@ -366,6 +370,8 @@ def read_cases(draw):
     else:
         vals = st.integers(-50, 50) if integral else st.integers(-400, 400).map(lambda v: v / 8.0)
     data = draw(st.lists(vals, min_size=n, max_size=n))
+    if dtype == "f8" and dt in ("Integer", "Positive Integer") and draw(st.booleans()):
+        data = [x + draw(st.sampled_from([0, 0.25, 0.75, 0.875])) for x in data]  # to be rounded to the nearest integer
     mask = draw(st.one_of(st.none(), st.lists(st.sampled_from([0, 0, 1]), min_size=n, max_size=n)))
     fill = draw(st.sampled_from([None, -9999, 120])) if mask is None else draw(st.sampled_from([None, -9999]))
     mv = None
@@ -385,6 +391,8 @@ def read_cases(draw):
     case = {"dims": dims, "var": {"name": "v", "dtype": dtype, "data": data, "mask": mask, "fill": fill}, "datatype": dt, "missing": mv}
     if draw(st.integers(0, 3)) == 0:
         case["earlier"] = True
+    if draw(st.integers(0, 3)) == 0:
+        case["var"]["endian"] = draw(st.sampled_from(["big", "little"]))
     return case
 
 
